@@ -115,9 +115,18 @@ def load_schema_text(xml):
 _LSP = [0]
 
 
-def load_schema_path(path):
+def load_schema_path(path, cwd=None):
     import ZConfig
     _LSP[0] += 1
+    if cwd is not None:
+        # from a working directory of the caller's choosing (restored
+        # afterwards)
+        old_ = os.getcwd()
+        os.chdir(cwd)
+        try:
+            return load_schema_path(path)
+        finally:
+            os.chdir(old_)
     try:
         if _LSP[0] % 3 == 0:
             # the same file as an open binary file whose name is bytes
@@ -586,7 +595,17 @@ def run_schema_extends(ctx, i, dirpath):
                             vsig="brokenbase|%s|%s" % (how, eb and eb[0]))
         with open(victim, "w") as f:
             f.write(good)
-    s1, e1 = load_schema_path(main)
+    # the working directory holds files named like the bases (and like
+    # the schema itself) with something else in them: a reference is
+    # resolved beside the document that contains it
+    decoy = os.path.join(os.path.dirname(dirpath), "sext decoys")
+    os.makedirs(os.path.join(decoy, "bases"), exist_ok=True)
+    for n_ in names + ["main.xml"]:
+        with open(os.path.join(decoy, n_), "w") as f:
+            f.write("<schema><key name='zcv-decoy' required='yes'/>"
+                    "<sectiontype name='zcv-decoy-type'/></schema>")
+    s1, e1 = load_schema_path(main, cwd=decoy if rng.random() < 0.7
+                              else None)
     case = {"family": "schema_extends", "mode": mode,
             "files": {n: open(os.path.join(dirpath, n)).read()
                       for n in names + ["main.xml"]},
